@@ -128,7 +128,7 @@ func genSubsFacts(repo string) (string, error) {
 		return "", fmt.Errorf("Client.monitor not found")
 	}
 	var targets, initial []string
-	resumeCond := ""
+	var resumeConds []string
 	pausesBeforeLoop := 0
 	ast.Inspect(mon, func(x ast.Node) bool {
 		switch s := x.(type) {
@@ -206,7 +206,7 @@ func genSubsFacts(repo string) (string, error) {
 						})
 					}
 					if calls && len(cc.List) == 1 {
-						resumeCond = exprString(fset, cc.List[0])
+						resumeConds = append(resumeConds, exprString(fset, cc.List[0]))
 					}
 				}
 			}
@@ -217,12 +217,12 @@ func genSubsFacts(repo string) (string, error) {
 		}
 		return true
 	})
-	if len(targets) == 0 || len(initial) == 0 || resumeCond == "" {
-		return "", fmt.Errorf("monitor: action switch (%d cases), error switch (%d cases) or resume condition (%q) not found", len(targets), len(initial), resumeCond)
+	if len(targets) == 0 || len(initial) == 0 || len(resumeConds) == 0 {
+		return "", fmt.Errorf("monitor: action switch (%d cases), error switch (%d cases) or resume conditions (%q) not found", len(targets), len(initial), resumeConds)
 	}
 	sb.WriteString("/-- per case of `switch action` in Client.monitor: the `action = …` assignments in source order -/\ndef actionTargets : List (String × List String) :=\n  [" + strings.Join(targets, ",\n   ") + "]\n\n")
 	sb.WriteString("/-- the first action chosen for an error (`errors.Is(err, …)` cases in source order, `fallthrough` resolved) -/\ndef initialActions : List (String × String) :=\n  [" + strings.Join(initial, ",\n   ") + "]\n\n")
-	fmt.Fprintf(&sb, "/-- the condition under which monitor resumes the publish loop after a reconnect -/\ndef resumeCond : String := %q\n\n", resumeCond)
+	sb.WriteString("/-- the case conditions under which monitor resumes the publish loop after a reconnect -/\ndef resumeConds : List String := " + leanStrList(resumeConds) + "\n\n")
 	fmt.Fprintf(&sb, "/-- calls of c.pauseSubscriptions in Client.monitor -/\ndef monitorPauses : Nat := %d\n\n", pausesBeforeLoop)
 
 	// 4. handleAcks: case labels that do not re-queue the acknowledgement
